@@ -746,8 +746,61 @@ static void seq_end(WorkList *list, int id) {
     if (id) emit_literal(list, "; })");
 }
 
+/* ---------------------------------------------------------------------------
+ * "let x = (f x)" where x shadows an outer x: in C the scope of a declared name starts at its
+ * own initialiser, so "int64_t x = (x * 2);" reads the new, uninitialised x.  The initialiser
+ * is evaluated into a temporary before the declaration and the declaration copies it.
+ * ------------------------------------------------------------------------- */
+static ASTNode *g_let_init_node = NULL;   /* expression that build_expr replaces by ... */
+static char g_let_init_name[48];          /* ... this temporary */
+
+static bool expr_mentions_ident(ASTNode *e, const char *name) {
+    if (!e || !name) return false;
+    switch (e->type) {
+        case AST_NUMBER: case AST_FLOAT: case AST_STRING: case AST_BOOL:
+            return false;
+        case AST_IDENTIFIER:
+            return e->as.identifier && strcmp(e->as.identifier, name) == 0;
+        case AST_PREFIX_OP:
+            for (int i = 0; i < e->as.prefix_op.arg_count; i++)
+                if (expr_mentions_ident(e->as.prefix_op.args[i], name)) return true;
+            return false;
+        case AST_CALL:
+            if (e->as.call.name && strcmp(e->as.call.name, name) == 0) return true;
+            if (expr_mentions_ident(e->as.call.func_expr, name)) return true;
+            for (int i = 0; i < e->as.call.arg_count; i++)
+                if (expr_mentions_ident(e->as.call.args[i], name)) return true;
+            return false;
+        case AST_FIELD_ACCESS:
+            return expr_mentions_ident(e->as.field_access.object, name);
+        case AST_TUPLE_INDEX:
+            return expr_mentions_ident(e->as.tuple_index.tuple, name);
+        case AST_ARRAY_LITERAL:
+            for (int i = 0; i < e->as.array_literal.element_count; i++)
+                if (expr_mentions_ident(e->as.array_literal.elements[i], name)) return true;
+            return false;
+        case AST_TUPLE_LITERAL:
+            for (int i = 0; i < e->as.tuple_literal.element_count; i++)
+                if (expr_mentions_ident(e->as.tuple_literal.elements[i], name)) return true;
+            return false;
+        case AST_STRUCT_LITERAL:
+            for (int i = 0; i < e->as.struct_literal.field_count; i++)
+                if (expr_mentions_ident(e->as.struct_literal.field_values[i], name)) return true;
+            return false;
+        default:
+            /* other shapes (union construction, match, ...) are emitted in the context of the
+             * declaration they initialise and keep the direct form */
+            return false;
+    }
+}
+
 static void build_expr(WorkList *list, ASTNode *expr, Environment *env) {
     if (!expr) return;
+    if (expr == g_let_init_node) {
+        /* the initialiser of a self-shadowing let: already evaluated into a temporary */
+        emit_literal(list, g_let_init_name);
+        return;
+    }
     
     switch (expr->type) {
         case AST_NUMBER:
@@ -2755,6 +2808,7 @@ static void build_expr(WorkList *list, ASTNode *expr, Environment *env) {
 static void build_stmt(WorkList *list, ScopeStack *scopes, ASTNode *stmt, int indent, Environment *env,
                        FunctionTypeRegistry *fn_registry) {
     if (!stmt) return;
+    if (stmt->type != AST_LET) g_let_init_node = NULL;   /* a substitution never outlives its let */
 
     switch (stmt->type) {
         case AST_BLOCK:
@@ -2927,6 +2981,16 @@ static void build_stmt(WorkList *list, ScopeStack *scopes, ASTNode *stmt, int in
             break;
             
         case AST_LET: {
+            g_let_init_node = NULL;
+            if (stmt->as.let.value && expr_mentions_ident(stmt->as.let.value, stmt->as.let.name)) {
+                int init_id = ++g_seq_counter;
+                emit_indent_item(list, indent);
+                emit_formatted(list, "__auto_type _nl_init_%d = ", init_id);
+                build_expr(list, stmt->as.let.value, env);
+                emit_literal(list, ";\n");
+                g_let_init_node = stmt->as.let.value;
+                snprintf(g_let_init_name, sizeof(g_let_init_name), "_nl_init_%d", init_id);
+            }
             emit_indent_item(list, indent);
             
             /* Handle tuple types - use __auto_type to infer from RHS */
